@@ -1,11 +1,11 @@
 use anyhow::{bail, Error, Result};
 use dcbor::prelude::*;
-use bc_components::{tags, Digest};
+use bc_components::{tags, Digest, DigestProvider};
 #[cfg(feature = "encrypt")]
 use bc_components::EncryptedMessage;
 #[cfg(feature = "compress")]
 use bc_components::Compressed;
-use crate::{Assertion, Envelope};
+use crate::{Assertion, Envelope, EnvelopeError};
 #[cfg(feature = "known_value")]
 use crate::extension::KnownValue;
 
@@ -108,6 +108,11 @@ impl CBORTaggedDecodable for Envelope {
                     .cloned()
                     .map(Self::from_untagged_cbor)
                     .collect::<Result<Vec<Self>, Error>>()?;
+                // The assertion elements MUST be in strictly ascending digest
+                // order (and hence free of duplicates).
+                if !assertions.windows(2).all(|w| w[0].digest() < w[1].digest()) {
+                    bail!(EnvelopeError::InvalidFormat)
+                }
                 Ok(Self::new_with_assertions(subject, assertions)?)
             }
             CBORCase::Map(_) => {
